@@ -3,7 +3,7 @@
    to read), the parser (C03Parse), the compiler (C03EquCompile). *)
 From GM Require Import Base Text Token Lexer Scanner ExprSpec ExprEval ForExpand Parser Sim Compile
      Prog Meaning AsmSpec C03Lexer C05Lexer C05Fuel C03Proof C07Model C10Proof C14Proof C16Proof ScanProof
-     C08Proof C08Block C08Scan C08Passes C09Parse C09Asm C09GenCompile C09GenLex C03Parse C03Compile C03Labels C03EquCompile.
+     C08Proof C08Block C08Scan C08Passes C14Expand C09Parse C09Asm C09GenCompile C09GenLex C03Parse C03Compile C03Labels C03EquCompile.
 From Coq Require Import Lia.
 Open Scope Z_scope.
 
@@ -284,3 +284,280 @@ Proof.
     + apply IH; [|exact Hb]. intros x Hx. apply Hinc. apply in_app_or in Hx. destruct Hx as [Hx|Hx]; apply in_or_app; [left; exact Hx|right; right; exact Hx].
 Qed.
 End EquGlue.
+
+(* ---------- scanner, pass driver and count check on such documents ---------- *)
+Lemma term_plain t : term_tok t -> plain_tok t.
+Proof. unfold term_tok, tok_is_expr_term, plain_tok, is_terminal. destruct (t_typ t); try discriminate; intros _; split; try reflexivity; discriminate. Qed.
+Lemma terms_plain l : Forall term_tok l -> Forall plain_tok l.
+Proof. intros H. eapply Forall_impl; [apply term_plain|exact H]. Qed.
+Lemma mode_plain m0 : Forall plain_tok (mode_toks m0).
+Proof. destruct m0; cbn [mode_toks]; repeat constructor; discriminate. Qed.
+Lemma cmt_plain_tok c : Forall plain_tok (cmt_toks c).
+Proof. destruct c; cbn [cmt_toks]; repeat constructor; discriminate. Qed.
+
+Lemma scan_spec_app a : forall b syms K, scan_spec (a ++ b) syms K = scan_spec a syms (fun m0 => scan_spec b m0 K).
+Proof.
+  induction a as [|p a IH]; intros b syms K; [reflexivity|]. cbn [app scan_spec]. unfold line_result.
+  destruct (is_kw (pl_first p) "equ"); [destruct (define_all _ _ _); [apply IH|reflexivity]|].
+  destruct (is_kw (pl_first p) "end"); [reflexivity|apply IH].
+Qed.
+Lemma scan_spec_empty k : forall syms K, scan_spec (repeat (mkPL [] []) k) syms K = K syms.
+Proof. induction k as [|k IH]; intros syms K; [reflexivity|]. cbn [repeat scan_spec]. unfold line_result. cbn. apply IH. Qed.
+Lemma empty_pline_ok k : Forall pline_ok (repeat (mkPL [] []) k).
+Proof.
+  induction k as [|k IH]; cbn [repeat]; constructor; [|exact IH].
+  split; [constructor|]. split; [constructor|]. cbn. left. discriminate.
+Qed.
+
+Section EquGlue2.
+Variable spell : N -> text.
+Variable cfg : config.
+Variable its : list Prog.item.
+Notation cf := (mconf_of cfg).
+Notation ev := (equs its).
+Notation ils := (instrs its).
+Notation ls := (lab_pairs 0 ils).
+Notation ids := (flat_map il_labels ils ++ map fst ev).
+Hypothesis Hsp : spell_ok spell ids.
+Notation lbs := (lbs' its).
+
+(* the lines as the scanner sees them are well formed, define each EQU name once, and hold no FOR *)
+Lemma r2_plines org its0 es : renders_doc2 spell org its0 es -> Forall (fun xk => lelem_ok (fst xk)) es ->
+  Forall (fun xk => labs_shape (fst xk)) es ->
+  Forall pline_ok (flat_map elem_plines es).
+Proof.
+  induction 1 as [|org l its1 t k es Hl _ IH|org c k its1 es _ _ IH|e kw cmt k its1 es Hkw _ _ IH|org n e labs kw cmt k its1 es Hl Hkw _ _ IH];
+    intros Hok Hsh; [constructor| | | |]; inversion Hok as [|a b Ha Hb]; subst; inversion Hsh as [|a b Hs1 Hs2]; subst; cbn [fst] in Ha, Hs1;
+    cbn [flat_map]; apply Forall_app; (split; [|apply IH; assumption]); unfold elem_plines; cbn [fst snd]; (constructor; [|apply empty_pline_ok]).
+  - (* an instruction line *)
+    cbn [lelem_ok] in Ha. destruct Ha as [Hhd [Hnm [Hop [[HA1 _] HB]]]]. cbn [line_rest fst snd].
+    split; [apply group_ok; [exact Hnm|exact I]|]. split.
+    + constructor; [split; [reflexivity|discriminate]|]. apply Forall_app. split; [apply mode_plain|].
+      apply Forall_app. split.
+      * destruct (tl_B t) as [[bm B]|]; [|constructor]. apply Forall_app. split; [apply terms_plain; exact HA1|].
+        constructor; [split; [reflexivity|discriminate]|apply mode_plain].
+      * apply Forall_app. split; [|apply cmt_plain_tok]. unfold tline_last. destruct (tl_B t) as [[bm B]|]; apply terms_plain; [apply HB|exact HA1].
+    + destruct Hop as [O1 [O2 O3]]. unfold pl_first. cbn [pl_rest pl_labels app hd].
+      destruct (group_acc None (tl_labs t)); [right|]; (split; [reflexivity|right; split; assumption]).
+  - cbn [line_rest fst snd group_acc]. split; [constructor|]. split; [repeat constructor; discriminate|]. cbn. left. discriminate.
+  - cbn [lelem_ok] in Ha. destruct Ha as [_ [_ [_ [He _]]]]. destruct (org_kw_facts kw Hkw) as [_ [K2 [_ [K4 _]]]].
+    cbn [line_rest fst snd group_acc]. split; [constructor|]. split.
+    + constructor; [split; [reflexivity|discriminate]|]. apply Forall_app. split; [apply terms_plain; exact He|apply cmt_plain_tok].
+    + cbn. right. split; [reflexivity|left; split; assumption].
+  - cbn [lelem_ok] in Ha. destruct Ha as [Hhd [Hnm [_ [_ [_ [He _]]]]]]. destruct (equ_kw_facts kw Hkw) as [_ [K2 [_ [K4 _]]]].
+    assert (Kf : lower_is kw "for" = false) by (unfold dir_kw_ok in Hkw; unfold lower_is; rewrite Hkw; reflexivity).
+    cbn [line_rest fst snd]. split; [apply group_ok; [exact Hnm|exact I]|]. split.
+    + constructor; [split; [reflexivity|discriminate]|]. apply Forall_app. split; [apply terms_plain; exact He|apply cmt_plain_tok].
+    + unfold pl_first. cbn [pl_rest pl_labels app hd].
+      destruct (group_acc None labs); [right|]; (split; [reflexivity|left; split; assumption]).
+Qed.
+
+Lemma r2_scan org its0 es : renders_doc2 spell org its0 es -> Forall (fun xk => labs_shape (fst xk)) es ->
+  forall syms, NoDup (map fst syms ++ map spell (map fst (equs its0))) ->
+  forall K, (forall m0, K m0 <> SRErr) -> scan_spec (flat_map elem_plines es) syms K <> SRErr.
+Proof.
+  induction 1 as [|org l its1 t k es [_ [Hop _]] _ IH|org c k its1 es _ _ IH|e kw cmt k its1 es Hkw _ _ IH|org n e labs kw cmt k its1 es Hl Hkw _ _ IH];
+    intros Hsh syms Hnd K HK; [apply HK| | | |]; inversion Hsh as [|a b Hs1 Hs2]; subst; cbn [fst] in Hs1;
+    cbn [flat_map]; rewrite scan_spec_app; unfold elem_plines; cbn [fst snd scan_spec]; unfold line_result.
+  - (* instruction: neither EQU nor END *)
+    destruct (optext_tok _ _ _ Hop) as [O1 [O2 O3]].
+    assert (Ek : forall w, is_kw (pl_first (mkPL (group_acc None (tl_labs t)) (snd (line_rest (LInstr t))))) w = false).
+    { intros w. unfold is_kw, pl_first. cbn [line_rest snd pl_rest app hd]. rewrite O3. rewrite andb_false_r. reflexivity. }
+    rewrite !Ek. rewrite scan_spec_empty. apply IH; assumption.
+  - cbn [line_rest fst snd group_acc]. unfold is_kw, pl_first. cbn [pl_rest app hd t_typ ttype_eqb andb]. rewrite scan_spec_empty. apply IH; assumption.
+  - destruct (dir_kw_facts kw "org" (or_introl eq_refl) Hkw) as [_ [_ [K1 [_ K3]]]]. cbn in K3.
+    cbn [line_rest fst snd group_acc]. unfold is_kw, pl_first. cbn [pl_rest app hd t_typ t_val]. rewrite K1, K3. rewrite !andb_false_r. rewrite scan_spec_empty. apply IH; assumption.
+  - destruct (equ_kw_facts kw Hkw) as [_ [K2 [_ [K4 _]]]].
+    cbn [line_rest fst snd]. unfold is_kw, pl_first. cbn [pl_rest pl_labels app hd t_typ t_val]. rewrite K2, K4. cbn [ttype_eqb andb].
+    replace (ttype_eqb tokText tokText) with true by reflexivity. cbn [andb].
+    rewrite group_names. cbn [app]. rewrite Hl. cbn [define_all].
+    cbn [equs map fst] in Hnd.
+    assert (Hfresh : sym_has (spell n) syms = false).
+    { unfold sym_has. destruct (sym_find (spell n) syms) as [v|] eqn:E; [|reflexivity]. exfalso.
+      apply sym_find_in in E. apply NoDup_remove_2 in Hnd. apply Hnd. apply in_or_app. left. exact E. }
+    rewrite Hfresh. rewrite scan_spec_empty. apply IH; [exact Hs2| |exact HK].
+    rewrite (sym_set_fresh (spell n)).
+    + rewrite map_app. cbn [map fst]. rewrite <- app_assoc. cbn [app]. exact Hnd.
+    + unfold sym_has in Hfresh. intros Hin. destruct (sym_find (spell n) syms) eqn:E; [discriminate Hfresh|]. 
+      clear - Hin E. induction syms as [|[k0 v0] s IHs]; [destruct Hin|]. cbn [sym_find map fst In] in *.
+      destruct (text_eqb (spell n) k0) eqn:Eq; [discriminate E|]. destruct Hin as [Hin|Hin]; [subst k0; rewrite text_eqb_refl in Eq; discriminate Eq|apply IHs; assumption].
+Qed.
+End EquGlue2.
+
+Section EquGlue3.
+Variable spell : N -> text.
+Variable cfg : config.
+Variable its : list Prog.item.
+Notation cf := (mconf_of cfg).
+Notation ev := (equs its).
+Notation ils := (instrs its).
+Notation ls := (lab_pairs 0 ils).
+Notation ids := (flat_map il_labels ils ++ map fst ev).
+Hypothesis Hsp : spell_ok spell ids.
+Notation lbs := (lbs' its).
+
+Lemma skippable_of l : Forall plainword l -> Forall nonterm l -> Forall skippable l.
+Proof.
+  intros Hp Hn. apply Forall_forall. intros t Ht. rewrite Forall_forall in Hp, Hn. specialize (Hn t Ht). unfold nonterm, is_terminal in Hn.
+  split; [apply Hp; exact Ht|]. split; intros X; rewrite X in Hn; discriminate Hn.
+Qed.
+
+Lemma labs_nonterm labs : Forall nonterm (map ltok_tok labs).
+Proof. induction labs as [|[n| |] t IH]; cbn [map]; constructor; try exact IH; reflexivity. Qed.
+
+Lemma r2_counts org its0 es : renders_doc2 spell org its0 es ->
+  incl (flat_map il_labels (instrs its0) ++ map fst (equs its0)) ids ->
+  Forall (fun xk => lelem_ok (fst xk)) es -> Forall (fun xk => (1 <= snd xk)%nat) es ->
+  Forall (fun l => Forall (known cf lbs) (line_names l)) (instrs its0) -> org_known cfg lbs org ->
+  forall rest, counts_modelled (body es ++ rest) None = counts_modelled rest None.
+Proof.
+  pose proof (Hsp' spell its Hsp) as Hs'.
+  induction 1 as [|org l its1 t k es Hl _ IH|org c k its1 es _ _ IH|e kw cmt k its1 es Hkw _ _ IH|org n e labs kw cmt k its1 es Hl Hkw _ _ IH];
+    intros Hinc Hok Hk Hkn Ho rest; [reflexivity| | | |]; inversion Hok as [|a b Ha Hb]; subst; inversion Hk as [|a b Hk1 Hk2]; subst; cbn [fst snd] in Ha, Hk1;
+    rewrite body_cons, <- !app_assoc.
+  - cbn [instrs equs flat_map] in Hinc, Hkn. inversion Hkn as [|a b Hkl Hkr]; subst.
+    cbn [lelem_toks]. rewrite cm_skip; [rewrite cm_skip by apply repeat_nl_skippable; apply IH; try assumption|].
+    + intros x Hx. apply Hinc. apply in_app_or in Hx. destruct Hx as [Hx|Hx]; apply in_or_app; [left; apply in_or_app; right; exact Hx|right; exact Hx].
+    + apply skippable_of; [|apply tline_toks_nonterm; exact Ha].
+      apply (tline_plain spell cfg lbs Hs' l t); [|exact Hl|exact Hkl].
+      rewrite lbs'_keys. intros x Hx. apply Hinc. apply in_or_app. left. apply in_or_app. left. exact Hx.
+  - cbn [lelem_toks]. rewrite cm_skip; [rewrite cm_skip by apply repeat_nl_skippable; apply IH; assumption|].
+    constructor; [|constructor]. split; [intros X; discriminate X|split; discriminate].
+  - cbn [lelem_toks]. destruct (org_kw_facts kw Hkw) as [_ [_ [_ [K4 K5]]]]. cbn [lelem_ok] in Ha. destruct Ha as [_ [_ [_ [He _]]]].
+    rewrite cm_skip; [rewrite cm_skip by apply repeat_nl_skippable; apply IH; try assumption; exact I|].
+    apply skippable_of.
+    + constructor; [intros _; split; assumption|]. apply Forall_app. split; [apply (expr_plain spell cfg lbs Hs'); exact Ho|apply cmt_plain].
+    + constructor; [reflexivity|]. apply Forall_app. split; [eapply Forall_impl; [apply term_nonterm|exact He]|destruct cmt; repeat constructor].
+  - cbn [instrs equs map fst] in Hinc. cbn [lelem_toks]. rewrite <- !app_assoc.
+    cbn [lelem_ok] in Ha. destruct Ha as [_ [_ [_ [_ [_ [He _]]]]]]. destruct (equ_kw_facts kw Hkw) as [_ [_ [_ [K4 _]]]].
+    rewrite cm_skip.
+    2: { apply skippable_of; [|apply labs_nonterm]. apply (labs_plain spell lbs Hs' [n]); [|exact Hl].
+         rewrite lbs'_keys. intros x [<-|[]]. apply Hinc. apply in_or_app. right. left. reflexivity. }
+    cbn [app counts_modelled t_typ t_val]. rewrite K4. rewrite orb_true_r.
+    destruct k as [|k]; [lia|]. cbn [repeat]. rewrite <- !app_assoc.
+    replace (etoks spell e ++ cmt_toks cmt ++ (nl_tok :: repeat nl_tok k) ++ body es ++ rest)
+      with ((etoks spell e ++ cmt_toks cmt) ++ nl_tok :: (repeat nl_tok k ++ body es ++ rest)) by (rewrite <- !app_assoc; reflexivity).
+    rewrite cm_acc.
+    + cbn [app count_line_ok]. rewrite forallb_app, (print_count_ok spell e).
+      assert (Hc : forallb count_tok_ok (cmt_toks cmt) = true) by (destruct cmt; reflexivity). rewrite Hc.
+      assert (Ha2 : operand_adjacent (etoks spell e ++ cmt_toks cmt) = false).
+      { destruct cmt as [c|]; cbn [cmt_toks]; [rewrite operand_adjacent_app by reflexivity; rewrite (print_not_adjacent spell e); reflexivity|rewrite app_nil_r; apply print_not_adjacent]. }
+      rewrite Ha2. cbn [andb negb]. rewrite cm_skip by apply repeat_nl_skippable. apply IH; try assumption.
+      intros x Hx. apply Hinc. apply in_app_or in Hx. destruct Hx as [Hx|Hx]; apply in_or_app; [left; exact Hx|right; right; exact Hx].
+    + apply Forall_app. split.
+      * eapply Forall_impl; [|exact He]. intros t0 Ht0. unfold term_tok, tok_is_expr_term in Ht0. destruct (t_typ t0); try discriminate Ht0; repeat split; discriminate.
+      * destruct cmt; repeat constructor; discriminate.
+Qed.
+
+(* the names referred to: defined ones *)
+Lemma r2_refs (S : text -> Prop) org its0 es : renders_doc2 spell org its0 es ->
+  Forall (fun l => Forall (known cf lbs) (line_names l)) (instrs its0) -> org_known cfg lbs org ->
+  Forall (fun ne => Forall (known cf lbs) (names (snd ne))) (equs its0) ->
+  (forall id, known cf lbs id -> S (spell id)) ->
+  forall rf, (forall r, In r rf -> S r) -> forall r, In r (drefs rf es) -> S r.
+Proof.
+  induction 1 as [|org l its1 t k es Hl _ IH|org c k its1 es _ _ IH|e kw cmt k its1 es _ _ _ IH|org n e labs kw cmt k its1 es _ _ _ _ IH];
+    intros Hk Ho Hb HS rf Hrf; cbn [drefs instrs equs] in *; [exact Hrf| | | |].
+  - inversion Hk as [|a b Ha Hb']; subst. apply (IH Hb' Ho Hb HS). apply (refs_line spell cfg lbs l t rf S Hl Ha HS Hrf).
+  - apply (IH Hk Ho Hb HS rf Hrf).
+  - apply (IH Hk I Hb HS). apply (expr_refs spell cfg lbs); assumption.
+  - inversion Hb as [|a b Hb1 Hb2]; subst. cbn [snd] in Hb1. apply (IH Hk Ho Hb2 HS). apply (expr_refs spell cfg lbs); assumption.
+Qed.
+End EquGlue3.
+
+(* ---------- from the text to the instructions ---------- *)
+Lemma ends_ok_all es : Forall (fun xk : lelem * nat => (1 <= snd xk)%nat) es -> ends_ok es.
+Proof.
+  induction 1 as [|[x k] t Hk _ IH]; [exact I|]. cbn [ends_ok]. destruct t as [|y t']; [exact I|]. split; [exact Hk|exact IH].
+Qed.
+
+Section EquEnd2End.
+Variable spell : N -> text.
+Variable cfg : config.
+Notation cf := (mconf_of cfg).
+
+Theorem program2_tokens org (its : list Prog.item) es lead nm au code start inp rkN :
+  validate cfg = true ->
+  spell_ok spell (flat_map il_labels (instrs its) ++ map fst (equs its)) ->
+  renders_doc2 spell org its es -> shape2_ok es -> Forall (fun xk => (1 <= snd xk)%nat) es ->
+  ranked spell (equs its) rkN ->
+  bodies_known cfg its ->
+  meaning cf (mkProg its org None nm au []) = MOk code start ->
+  lex_ascii inp = Some (ldoc_toks lead es) ->
+  compile_warrior cfg inp = COk code start (dmeta (mkPM [] [] []) es).
+Proof.
+  intros Hv Hsp Hrd Hsh Hk1 Hrk Hbod Hmean Hlex.
+  set (ev := equs its) in *. set (ils := instrs its) in *. set (ls := lab_pairs 0 ils) in *.
+  pose proof (Hsp' spell its Hsp) as Hs'. pose proof (lbs'_keys its) as Hkeys.
+  pose proof (r2_plain spell org its es Hrd) as Hplain.
+  (* what the meaning says about the names *)
+  assert (Hfacts : Forall (fun l => Forall (known cf (lbs' its)) (line_names l)) ils /\ org_known cfg (lbs' its) org).
+  { pose proof Hmean as Hm2. unfold meaning in Hm2. cbn [pr_items pr_end_labels pr_org pr_end] in Hm2.
+    rewrite (collect_plain its 0 [] [] [] Hplain) in Hm2. cbn [app map] in Hm2. rewrite app_nil_r in Hm2.
+    rewrite (assertions_plain _ _ _ its Hplain) in Hm2. fold ev ils ls in Hm2.
+    destruct (meaning_code cf ev ls 0 ils []) as [code' s'| |] eqn:Emc; try discriminate.
+    split; [apply (r2_known spell cfg its org its es Hrd 0 [] code' s' Emc)|].
+    destruct (mf_len cf <? Z.of_nat (length code')); [discriminate|].
+    destruct org as [eo|]; [|exact I]. cbn [org_known].
+    destruct (value_at cf ev ls 0 eo) as [v| |] eqn:Ev; try discriminate.
+    eapply Forall_impl; [apply (knownE_known cfg its)|]. apply (value_names cf ev ls 0 eo v Ev). }
+  destruct Hfacts as [Hknown Hko].
+  assert (Hbk : Forall (fun ne => Forall (known cf (lbs' its)) (names (snd ne))) ev).
+  { unfold bodies_known in Hbod. eapply Forall_impl; [|exact Hbod]. intros ne Hne. eapply Forall_impl; [apply (knownE_known cfg its)|exact Hne]. }
+  pose proof (r2_ok spell its Hsp org its es Hrd (incl_refl _) Hsh) as Hok.
+  assert (Hshk : Forall (fun xk => labs_shape (fst xk) /\ (1 <= snd xk)%nat) es).
+  { apply Forall_forall. intros xk Hx. unfold shape2_ok in Hsh. rewrite Forall_forall in Hsh, Hk1. split; [apply Hsh|apply Hk1]; exact Hx. }
+  (* the tokens, as lines *)
+  assert (Etoks : ldoc_toks lead es = flat_map pl_toks (doc_plines lead es) ++ [tEOF]).
+  { unfold ldoc_toks. rewrite (doc_plines_toks lead es Hshk). rewrite <- app_assoc. reflexivity. }
+  (* the count pre-check *)
+  assert (Hcm : counts_modelled (ldoc_toks lead es) None = true).
+  { unfold ldoc_toks. rewrite cm_skip by apply repeat_nl_skippable.
+    rewrite (r2_counts spell cfg its Hsp org its es Hrd (incl_refl _) Hok Hk1 Hknown Hko). reflexivity. }
+  (* the scanner and the pass driver *)
+  destruct Hsp as [Hpre Hlab Hinj Hnd Hword].
+  assert (Hev_inj : forall a b, In a (map fst ev) -> In b (map fst ev) -> spell a = spell b -> a = b)
+    by (intros a b Ha Hb; apply Hinj; apply in_or_app; right; assumption).
+  assert (Hev_nd : NoDup (map spell (map fst ev))).
+  { apply NoDup_map_spell; [|exact Hev_inj]. clear - Hnd. induction (flat_map il_labels ils) as [|a l IH]; [exact Hnd|]. cbn [app] in Hnd. inversion Hnd; subst. apply IH. assumption. }
+  assert (Hpl : Forall pline_ok (doc_plines lead es)).
+  { unfold doc_plines. apply Forall_app. split; [apply empty_pline_ok|]. apply (r2_plines spell org its es Hrd Hok Hsh). }
+  assert (Hscan : plain_symbols (doc_plines lead es) <> SRErr).
+  { unfold plain_symbols, doc_plines. rewrite scan_spec_app, scan_spec_empty.
+    apply (r2_scan spell org its es Hrd Hsh [] Hev_nd). intros m0. discriminate. }
+  pose proof (pass_last cfg max_for_passes (doc_plines lead es) tEOF Hpl eq_refl) as Hpass.
+  rewrite <- Etoks in Hpass. destruct (plain_symbols (doc_plines lead es)) as [|m0 fs]; [congruence|].
+  (* the parser *)
+  assert (Hperm : Permutation.Permutation (predefined ++ dnames es) (predefined ++ map spell (map fst (lbs' its)))).
+  { apply Permutation.Permutation_app_head. rewrite Hkeys, map_app. apply (r2_names spell org its es Hrd). }
+  assert (Hndp : NoDup (predefined ++ dnames es)).
+  { apply (Permutation.Permutation_NoDup (Permutation.Permutation_sym Hperm)). rewrite Hkeys. apply nodup_app.
+    - unfold predefined. repeat constructor; cbn [In]; intros H; repeat (destruct H as [H|H]; [discriminate H|]); exact H.
+    - apply NoDup_map_spell; assumption.
+    - intros x Hx Hin. apply in_map_iff in Hin. destruct Hin as [id [<- Hid]]. apply (proj2 (Hlab id Hid)). exact Hx. }
+  assert (Hrefs : forall r, In r (drefs [] es) -> In r (predefined ++ dnames es)).
+  { apply (r2_refs spell cfg its (fun r => In r (predefined ++ dnames es)) org its es Hrd Hknown Hko Hbk).
+    - intros id Hid. apply (Permutation.Permutation_in _ (Permutation.Permutation_sym Hperm)). apply (known_spelled spell cfg (lbs' its) Hs' id Hid).
+    - intros r []. }
+  destruct (parse_ldoc lead es Hok (ends_ok_all es Hk1) Hndp Hrefs) as [lines [Hparse Hess]].
+  unfold compile_warrior. rewrite Hlex, Hcm. cbn [negb]. rewrite Hpass, Hparse.
+  apply (compile_program2 spell cfg org its es lines _ nm au code start rkN Hv Hrd (mkSpellOk spell _ Hpre Hlab Hinj Hnd Hword) Hrk Hess Hmean).
+Qed.
+
+(* the same for a text given by its lexemes, with any white space between them *)
+Theorem program2_text org (its : list Prog.item) es lead nm au code start rkN lexemes tail :
+  validate cfg = true ->
+  spell_ok spell (flat_map il_labels (instrs its) ++ map fst (equs its)) ->
+  renders_doc2 spell org its es -> shape2_ok es -> Forall (fun xk => (1 <= snd xk)%nat) es ->
+  ranked spell (equs its) rkN ->
+  bodies_known cfg its ->
+  meaning cf (mkProg its org None nm au []) = MOk code start ->
+  Forall (fun x => is_space_a x = true) tail -> tail <> [] -> items_ok lexemes tail ->
+  flat_map item_toks lexemes ++ newlines tail ++ [tEOF] = ldoc_toks lead es ->
+  compile_warrior cfg (flat_map item_text lexemes ++ tail) = COk code start (dmeta (mkPM [] [] []) es).
+Proof.
+  intros Hv Hsp Hrd Hsh Hk Hrk Hb Hmean Ht Hne Hits Htoks.
+  apply (program2_tokens org its es lead nm au code start _ rkN Hv Hsp Hrd Hsh Hk Hrk Hb Hmean).
+  rewrite (lex_items lexemes tail Ht Hne Hits). rewrite Htoks. reflexivity.
+Qed.
+End EquEnd2End.
